@@ -108,6 +108,7 @@ func toPathsD(s Paths) clipper.PathsD {
 		for j, p := range q {
 			out[i][j] = clipper.PointD{X: float64(p[0]), Y: float64(p[1])}
 		}
+		regPathD(out[i])
 	}
 	return out
 }
@@ -250,7 +251,7 @@ func replayLife(r *rand.Rand, w *writer, h lifeHist, histStr string) {
 			out := safeCall(func() { g.add(paths, op.Ptype, op.Open) })
 			adds = append(adds, addRec{before, op.Ptype, op.Open})
 			w.emit(&EngEv{Ev: "EngAdd", Chk: []string{}, Id: 1, P: op.P, Paths: before, Ptype: op.Ptype, Open: op.Open,
-				Out: out, Ok: true, ArgsSame: equalPaths(before, paths)})
+				Out: out, Ok: true, ArgsSame: equalPaths(before, paths) && argsUnchanged()})
 			continue
 		}
 		e := &EngEv{Ev: "EngExec", Chk: []string{"C12"}, Id: 1, Form: op.Form, Ct: op.Ct, Fr: op.Fr}
@@ -323,7 +324,7 @@ func replayLife(r *rand.Rand, w *writer, h lifeHist, histStr string) {
 		sel := selectProbes(r, cands, bad, farIn, 8, 24)
 		e.Probes = sel.Probes
 		e.Nontriv = nexec >= 2
-		e.ArgsSame = true
+		e.ArgsSame = argsUnchanged()
 		w.emit(e)
 	}
 }
